@@ -88,7 +88,12 @@ class Listeners:
 
     def _take_callback(self, name: str, names_not_found_handler: Callable) -> Callable:
         callbacks: List[Callable] = []
+        seen: Set[str] = set()
         for key, builder in self.search_name(name):
+            if key in seen:
+                # the same object attached twice provides the name once
+                continue
+            seen.add(key)
             callback = builder()
             callback.unique_key = key  # type: ignore[attr-defined]
             callbacks.append(callback)
